@@ -945,10 +945,10 @@ Lemma trim_fuel : forall suf f1 f2 l, suf <> [] -> (length l <= f1)%nat -> (leng
 Proof.
   intros suf. induction f1 as [|f1 IH]; intros f2 l Hs H1 H2.
   - destruct l; [|simpl in H1; lia]. destruct f2; [reflexivity|]. simpl.
-    unfold ends_with. destruct suf; [congruence|]. simpl. rewrite andb_false_r. reflexivity.
+    unfold ends_with. destruct suf; [congruence|]. simpl. reflexivity.
   - destruct f2.
     + destruct l; [|simpl in H2; lia]. simpl. unfold ends_with. destruct suf; [congruence|]. simpl.
-      rewrite andb_false_r. reflexivity.
+      reflexivity.
     + simpl. destruct (negb (is_nil suf) && ends_with suf l) eqn:C; [|reflexivity].
       apply andb_prop in C. destruct C as [_ C]. unfold ends_with in C. apply andb_prop in C. destruct C as [C _].
       apply Nat.leb_le in C. assert (0 < length suf)%nat by (destruct suf; [congruence | simpl; lia]).
@@ -993,4 +993,211 @@ Proof.
     destruct s as [|c s]; [reflexivity|].
     rewrite not_dotdot by (rewrite app_length; simpl; lia).
     rewrite rsplit_dot_last by (simpl; intros [X|[X|[]]]; discriminate). reflexivity.
+Qed.
+
+(* ================================================================== a missing final newline changes nothing *)
+Lemma lines_cons : forall c t,
+  lines (c :: t) = if is_eol c then [c] :: lines t
+                   else match lines t with [] => [[c]] | l :: ls => (c :: l) :: ls end.
+Proof. reflexivity. Qed.
+
+Lemma lines_add_lf : forall t, t <> [] -> last t 0 <> 10 ->
+  exists init x, x <> [] /\ lines t = init ++ [x] /\ lines (t ++ [10]) = init ++ [x ++ [10]].
+Proof.
+  induction t as [|c t IH]; intros Hn Hl; [congruence|].
+  destruct t as [|d t].
+  - simpl in Hl. exists [], [c]. simpl. replace (is_eol c) with false.
+    + repeat split; try discriminate. 
+    + symmetry. unfold is_eol, line_end_byte. apply N.eqb_neq. exact Hl.
+  - assert (Hl' : last (d :: t) 0 <> 10) by exact Hl.
+    destruct (IH ltac:(discriminate) Hl') as [init [x [Hx [L1 L2]]]].
+    change ((c :: d :: t) ++ [10]) with (c :: ((d :: t) ++ [10])).
+    rewrite (lines_cons c (d :: t)), (lines_cons c ((d :: t) ++ [10])). rewrite L1, L2. destruct (is_eol c).
+    + exists ([c] :: init), x. repeat split; auto.
+    + destruct init as [|i init]; simpl.
+      * exists [], (c :: x). repeat split; auto. discriminate.
+      * exists ((c :: i) :: init), x. repeat split; auto.
+Qed.
+
+Lemma starts_marker_snoc : forall h, starts_marker (h ++ [10]) = starts_marker h.
+Proof. intros [|c h]; reflexivity. Qed.
+
+Lemma groups_snoc_lf : forall init x, x <> [] -> Forall (fun l => l <> []) init ->
+  exists G h c, groups (init ++ [x]) = G ++ [(h, c)] /\
+    ((c = [] /\ groups (init ++ [x ++ [10]]) = G ++ [(h ++ [10], [])]) \/
+     (c <> [] /\ groups (init ++ [x ++ [10]]) = G ++ [(h, c ++ [10])])).
+Proof.
+  induction init as [|l init IH]; intros x Hx Hne.
+  - exists [], x, []. simpl. split; [reflexivity|]. left. split; reflexivity.
+  - inversion Hne; subst. destruct (IH x Hx H2) as [G [h [c [E1 E2]]]].
+    change (groups ((l :: init) ++ [x])) with
+      (match groups (init ++ [x]) with
+       | [] => [(l, [])]
+       | (h', c') :: rs => if starts_marker h' then (l, []) :: (h', c') :: rs else (l, h' ++ c') :: rs
+       end).
+    change (groups ((l :: init) ++ [x ++ [10]])) with
+      (match groups (init ++ [x ++ [10]]) with
+       | [] => [(l, [])]
+       | (h', c') :: rs => if starts_marker h' then (l, []) :: (h', c') :: rs else (l, h' ++ c') :: rs
+       end).
+    rewrite E1. destruct G as [|[gh gc] G].
+    + (* the last group is the only one of the tail: h is the first line of init ++ [x], hence non-empty *)
+      assert (Hh : h <> []).
+      { destruct init as [|i init]; simpl in E1.
+        - inversion E1; subst. exact Hx.
+        - destruct (groups_head i (init ++ [x])) as [c0 [rs0 E0]]. simpl in E0. rewrite E0 in E1.
+          inversion E1; subst. inversion H2; subst. assumption. }
+      cbn [app]. destruct E2 as [[-> E2]|[Hc E2]]; rewrite E2; cbn [app].
+      * rewrite starts_marker_snoc. destruct (starts_marker h).
+        -- exists [(l, [])], h, []. split; [reflexivity|]. left. split; reflexivity.
+        -- exists [], l, (h ++ []). split; [reflexivity|]. right. rewrite !app_nil_r. split; [exact Hh | reflexivity].
+      * destruct (starts_marker h).
+        -- exists [(l, [])], h, c. split; [reflexivity|]. right. split; [exact Hc | reflexivity].
+        -- exists [], l, (h ++ c). split; [reflexivity|]. right. split.
+           ++ destruct h; [congruence | discriminate].
+           ++ rewrite app_assoc. reflexivity.
+    + cbn [app]. destruct E2 as [[-> E2]|[Hc E2]]; rewrite E2; cbn [app]; destruct (starts_marker gh).
+      * exists ((l, []) :: (gh, gc) :: G), h, []. split; [reflexivity|]. left. split; reflexivity.
+      * exists ((l, gh ++ gc) :: G), h, []. split; [reflexivity|]. left. split; reflexivity.
+      * exists ((l, []) :: (gh, gc) :: G), h, c. split; [reflexivity|]. right. split; [exact Hc | reflexivity].
+      * exists ((l, gh ++ gc) :: G), h, c. split; [reflexivity|]. right. split; [exact Hc | reflexivity].
+Qed.
+
+Theorem final_newline_lemma : forall t, t <> [] -> last t 0 <> 10 -> parse (t ++ [10]) = parse t.
+Proof.
+  intros t Hn Hl. rewrite !parse_exact.
+  destruct (lines_add_lf t Hn Hl) as [init [x [Hx [L1 L2]]]]. rewrite L1, L2.
+  assert (Hne : Forall (fun l => l <> []) init).
+  { apply Forall_forall. intros l Hin. apply (lines_nonempty t). rewrite L1. apply in_or_app. left. exact Hin. }
+  destruct (groups_snoc_lf init x Hx Hne) as [G [h [c [E1 [[-> E2]|[Hc E2]]]]]]; rewrite E1, E2, !deliver_app; f_equal.
+  - cbn [deliver]. unfold rec_name, rec_has_base. cbn [fst snd existsb is_nil].
+    destruct (is_nil (header_id (h ++ [10]))); destruct (is_nil (header_id h)); reflexivity.
+  - cbn [deliver]. unfold rec_name, rec_has_base. cbn [fst snd].
+    rewrite existsb_app, convert_app. simpl existsb. replace (keep 10) with false by reflexivity. rewrite !orb_false_r.
+    replace (is_nil (c ++ [10])) with (is_nil c) by (destruct c; [congruence | reflexivity]).
+    replace (convert [10]) with (@nil N) by reflexivity. rewrite app_nil_r. reflexivity.
+Qed.
+
+(* ================================================================== the catalogue built by create *)
+Definition archive : Type := list (list N * list (list N * list N)).
+
+Fixpoint contigs_of (arch : archive) (s : list N) : list (list N * list N) :=
+  match arch with
+  | [] => []
+  | (s', cs) :: a => if bytes_eqb s' s then cs else contigs_of a s
+  end.
+Definition has_contig (arch : archive) (s n : list N) : bool :=
+  existsb (fun x => bytes_eqb (fst x) n) (contigs_of arch s).
+
+Lemma bytes_eqb_sym : forall a b, bytes_eqb a b = bytes_eqb b a.
+Proof.
+  intros a b. destruct (bytes_eqb a b) eqn:E.
+  - apply list_eqb_eq in E. subst. symmetry. apply bytes_eqb_refl.
+  - symmetry. apply bytes_eqb_neq. intro X. subst. rewrite bytes_eqb_refl in E. discriminate.
+Qed.
+
+Lemma add_contig_spec : forall arch s n c a, add_contig arch (s, n, c) = Some a ->
+  has_contig arch s n = false /\
+  contigs_of a s = contigs_of arch s ++ [(n, c)] /\
+  (forall s', bytes_eqb s' s = false -> contigs_of a s' = contigs_of arch s').
+Proof.
+  induction arch as [|[s0 cs0] arch IH]; intros s n c a H.
+  - simpl in H. inversion H; subst. unfold has_contig. simpl. rewrite bytes_eqb_refl.
+    split; [reflexivity|]. split; [reflexivity|]. intros s' E. rewrite bytes_eqb_sym, E. reflexivity.
+  - cbn [add_contig] in H. unfold has_contig. cbn [contigs_of]. destruct (bytes_eqb s0 s) eqn:E0.
+    + destruct (existsb (fun x => bytes_eqb (fst x) n) cs0) eqn:X; [discriminate|]. inversion H; subst.
+      cbn [contigs_of]. rewrite E0. split; [reflexivity|]. split; [reflexivity|].
+      intros s' E. apply list_eqb_eq in E0. subst s0.
+      rewrite (bytes_eqb_sym s s'), E. reflexivity.
+    + destruct (add_contig arch (s, n, c)) as [a'|] eqn:A; [|discriminate]. inversion H; subst.
+      destruct (IH s n c a' A) as [I1 [I2 I3]]. cbn [contigs_of]. rewrite E0.
+      split; [exact I1|]. split; [exact I2|]. intros s' E. destruct (bytes_eqb s0 s'); [reflexivity | apply I3; exact E].
+Qed.
+
+Lemma add_contig_none : forall arch s n c, has_contig arch s n = true -> add_contig arch (s, n, c) = None.
+Proof.
+  induction arch as [|[s0 cs0] arch IH]; intros s n c H.
+  - discriminate.
+  - unfold has_contig in H. cbn [contigs_of] in H. cbn [add_contig]. destruct (bytes_eqb s0 s).
+    + rewrite H. reflexivity.
+    + rewrite IH; [reflexivity | exact H].
+Qed.
+
+Lemma add_contig_some : forall arch s n c, has_contig arch s n = false -> exists a, add_contig arch (s, n, c) = Some a.
+Proof.
+  induction arch as [|[s0 cs0] arch IH]; intros s n c H.
+  - eexists. reflexivity.
+  - unfold has_contig in H. cbn [contigs_of] in H. cbn [add_contig]. destruct (bytes_eqb s0 s).
+    + rewrite H. eexists. reflexivity.
+    + destruct (IH s n c H) as [a E]. rewrite E. eexists. reflexivity.
+Qed.
+
+Lemma has_contig_mono : forall arch s n s' n' c a, has_contig arch s n = true ->
+  add_contig arch (s', n', c) = Some a -> has_contig a s n = true.
+Proof.
+  intros arch s n s' n' c a H A. destruct (add_contig_spec arch s' n' c a A) as [_ [S2 S3]].
+  unfold has_contig in *. destruct (bytes_eqb s s') eqn:E.
+  - apply list_eqb_eq in E. subst s'. rewrite S2, existsb_app, H. reflexivity.
+  - rewrite (S3 s E). exact H.
+Qed.
+
+(* a second record with the same (sample, name) makes create fail *)
+Lemma collect_dup : forall cs2 arch s n c2 cs3, has_contig arch s n = true ->
+  collect arch (cs2 ++ (s, n, c2) :: cs3) = Err.
+Proof.
+  induction cs2 as [|[[s' n'] c'] cs2 IH]; intros arch s n c2 cs3 H.
+  - simpl app. cbn [collect]. rewrite add_contig_none; auto.
+  - simpl app. cbn [collect]. destruct (add_contig arch (s', n', c')) as [a|] eqn:A; [|reflexivity].
+    apply IH. eapply has_contig_mono; eauto.
+Qed.
+
+Theorem duplicate_rejected_lemma : forall cs1 s n c1 cs2 c2 cs3,
+  collect [] (cs1 ++ (s, n, c1) :: cs2 ++ (s, n, c2) :: cs3) = Err.
+Proof.
+  intros cs1 s n c1 cs2 c2 cs3. generalize (@nil (list N * list (list N * list N))). 
+  induction cs1 as [|[[s' n'] c'] cs1 IH]; intro arch.
+  - simpl app. cbn [collect]. destruct (add_contig arch (s, n, c1)) as [a|] eqn:A; [|reflexivity].
+    apply collect_dup. destruct (add_contig_spec arch s n c1 a A) as [_ [S2 _]].
+    unfold has_contig. rewrite S2, existsb_app. simpl. rewrite bytes_eqb_refl. simpl. apply orb_true_r.
+  - simpl app. cbn [collect]. destruct (add_contig arch (s', n', c')); [apply IH | reflexivity].
+Qed.
+
+Definition of_sample (s : list N) (cs : list contig3) : list (list N * list N) :=
+  map (fun x => (snd (fst x), snd x)) (filter (fun x => bytes_eqb (fst (fst x)) s) cs).
+
+(* nothing is lost or reordered: each sample holds exactly its contigs, in order of arrival *)
+Lemma collect_contigs : forall cs arch a, collect arch cs = Ok a ->
+  forall s, contigs_of a s = contigs_of arch s ++ of_sample s cs.
+Proof.
+  induction cs as [|[[s' n'] c'] cs IH]; intros arch a H s.
+  - simpl in H. inversion H; subst. unfold of_sample. simpl. rewrite app_nil_r. reflexivity.
+  - cbn [collect] in H. destruct (add_contig arch (s', n', c')) as [a'|] eqn:A; [|discriminate].
+    rewrite (IH a' a H s). destruct (add_contig_spec arch s' n' c' a' A) as [_ [S2 S3]].
+    unfold of_sample. cbn [filter fst snd]. destruct (bytes_eqb s' s) eqn:E.
+    + apply list_eqb_eq in E. subst s'. rewrite S2. cbn [map fst snd]. rewrite <- app_assoc. reflexivity.
+    + rewrite (S3 s); [reflexivity|]. rewrite bytes_eqb_sym. exact E.
+Qed.
+
+Theorem collect_per_sample_lemma : forall cs a, collect [] cs = Ok a -> forall s, contigs_of a s = of_sample s cs.
+Proof. intros cs a H s. rewrite (collect_contigs cs [] a H s). reflexivity. Qed.
+
+(* create fails at the catalogue only because of a duplicate *)
+Lemma collect_err_dup : forall cs arch, collect arch cs = Err ->
+  exists cs1 s n c cs2, cs = cs1 ++ (s, n, c) :: cs2 /\
+    (has_contig arch s n = true \/ existsb (fun x => bytes_eqb (fst (fst x)) s && bytes_eqb (snd (fst x)) n) cs1 = true).
+Proof.
+  induction cs as [|[[s' n'] c'] cs IH]; intros arch H; [discriminate|].
+  cbn [collect] in H. destruct (add_contig arch (s', n', c')) as [a|] eqn:A.
+  - destruct (IH a H) as [cs1 [s [n [c [cs2 [E D]]]]]]. exists ((s', n', c') :: cs1), s, n, c, cs2.
+    split; [rewrite E; reflexivity|].
+    destruct (add_contig_spec arch s' n' c' a A) as [_ [S2 S3]].
+    destruct D as [D|D]; [|right; simpl; rewrite D; apply orb_true_r].
+    unfold has_contig in D. destruct (bytes_eqb s s') eqn:Es.
+    + apply list_eqb_eq in Es. subst s'. rewrite S2, existsb_app in D. apply orb_prop in D. destruct D as [D|D].
+      * left. exact D.
+      * right. simpl in D. rewrite orb_false_r in D. cbn [existsb fst snd]. rewrite bytes_eqb_refl, (bytes_eqb_sym n' n), D. reflexivity.
+    + left. rewrite (S3 s Es) in D. exact D.
+  - exists [], s', n', c', cs. split; [reflexivity|]. left.
+    destruct (has_contig arch s' n') eqn:X; auto.
+    destruct (add_contig_some arch s' n' c' X) as [a E]. congruence.
 Qed.
